@@ -5,7 +5,9 @@ networks/states and one systemic clause (a constraint-free network is usable by 
 by the scheduler party during runs."""
 from .. import sut, world, driver
 from ..rng import sub
+from fractions import Fraction
 from ..models import phasor
+from ..sortedworld import cons_of as cons_at
 from ..worldprop import base_outcome, completion, REAL_VS_STUB  # noqa
 
 np = sut.np
@@ -19,17 +21,96 @@ RULE = ("worlds with three-phase mixed-sign constraint matrices (1-6 constraints
         "distinct phase angles; distinct = history signature + probe pattern")
 PROBES = ["probe", "probe_within_2tol_mixed_sign", "explicit_tolerances", "rel_tol_dominates", "linear_probe", "multi_period",
           "negative_entries", "one_dim_vector", "constraint_free_world", "constraint_free_sorted_completed", "dict_omitted_rows",
-          "executed_columns_checked", "invalid_schedule_warning_seen"]
-FAULT_DIMENSION = "none - state/message distribution only (pure function); probes are messages the party sends during a run"
+          "executed_columns_checked", "invalid_schedule_warning_seen", "probe_after_reconfig", "exact_boundary_probe",
+          "exactly_at_limit_plus_tol", "exact_linear_probe"]
+FAULT_DIMENSION = ("environment fault only: the operator changes a constraint limit between two periods (all three checkers must "
+                   "follow); otherwise state/message distribution (pure function); probes are messages the party sends during a run")
 ASSUMPTIONS = ["guard band: verdicts are compared only when the reference margin is outside 1e-9*max(1,limit)",
                "linear mode: only agreement of the three checkers and conservativeness for non-negative schedules are required"]
 KS = [-10, -2, -0.5, 0.5, 2, 10]
-PROFILE = world.profile(constraints={"none": 1, "three": 5}, binding=(0.2, 1.2),
+PROFILE = world.profile(reconfig=0.25, constraints={"none": 1, "three": 5}, binding=(0.2, 1.2),
                         party={"scripted": 3, "uncontrolled": 1, "greedy": 3, "rr": 1}, stations=(1, 7))
 
 
+DY_COEF = [1, 1, 1, -1, 2, 0.5, 0.25, -0.5]
+
+
 def gen(rs, tier):
-    return world.gen_world(rs, PROFILE)
+    sc = world.gen_world(rs, PROFILE)
+    r = sub(rs, "exactworld")
+    if sc["network"]["constraints"] and r.random() < 0.2:
+        # 'exact' flavour: one phase, dyadic coefficients / limits / tolerances -> every sum is exact in binary floating
+        # point, so verdicts AT the boundary (|sum| == limit + tol) are decidable without a guard band
+        sc["exact"] = True
+        for s_ in sc["network"]["stations"]:
+            s_["phase"] = 0
+        for c in sc["network"]["constraints"]:
+            c["coeffs"] = {k: r.choice(DY_COEF) for k in c["coeffs"]}
+            c["limit"] = float(max(1, round(c["limit"] * 2) / 2))
+        for rc in sc.get("reconfig", []):
+            rc["limit"] = float(max(1, round(rc["limit"] * 2) / 2))
+        sc["network"]["violation_tolerance"] = r.choice([0.5, 0.25, 0.125, 0.0, 2.0 ** -10])
+        sc["network"]["relative_tolerance"] = r.choice([0.0, 0.0, 2.0 ** -6, 2.0 ** -4])
+    return sc
+
+
+def probe_exact(out, sc, nw, iface, r, tag, cons):
+    """Boundary probes with exact arithmetic (exact worlds only): the most binding constraint sits exactly AT limit + tol
+    (must be feasible: 'at most') or one dyadic step above it (must be infeasible)."""
+    ids = [s["id"] for s in sc["network"]["stations"]]
+    N = len(ids)
+    vt, rt = sc["network"]["violation_tolerance"], sc["network"]["relative_tolerance"]
+    F = Fraction
+    caps = [F(lim) + max(F(vt), F(rt) * F(lim)) for _, lim in cons]
+    j = r.randrange(len(cons))
+    row = cons[j][0]
+    members = [i for i, c in enumerate(row) if c]
+    if not members:
+        return
+    i = r.choice(members)
+    T = r.choice([1, 1, 2, 3])
+    tcol = r.randrange(T)
+    M = [[F(0)] * T for _ in range(N)]
+    for k in range(N):
+        for t in range(T):
+            if r.random() < 0.6:
+                M[k][t] = F(r.randint(0, 64), 4)
+    bump = r.choice([F(0), F(0), F(1, 2 ** 20), F(1, 4)])
+    sgn = r.choice([1, 1, -1])
+    S = sum(F(row[k]) * M[k][tcol] for k in range(N) if k != i)
+    M[i][tcol] = (sgn * (caps[j] + bump) - S) / F(row[i])
+    # exact verdict over all constraints and periods
+    worst = None
+    for (rw, lim), cap in zip(cons, caps):
+        for t in range(T):
+            m = cap - abs(sum(F(rw[k]) * M[k][t] for k in range(N)))
+            worst = m if worst is None or m < worst else worst
+    A = np.array([[float(x) for x in rowx] for rowx in M], dtype=float)
+    if any(F(float(x)) != x for rowx in M for x in rowx):
+        return      # not exactly representable: leave it to the guard-banded probes
+    want = worst >= 0
+    infra = iface.infrastructure_info()
+    d = {ids[k]: [float(x) for x in M[k]] for k in range(N)}
+    res = {"network": bool(nw.is_feasible(A)), "interface": bool(iface.is_feasible(d)),
+           "algorithm": bool(sut.algo_utils.infrastructure_constraints_feasible(A, infra, False, vt, rt))}
+    out.probe("exact_boundary_probe")
+    if worst == 0:
+        out.probe("exactly_at_limit_plus_tol")
+    for kk, v in res.items():
+        if v != want:
+            out.add("C06/%s_at_exact_boundary" % kk, "%s: %s check says %s, exact arithmetic says %s (worst margin %s A; constraint %d "
+                    "|sum| vs limit+tol %s; vt=%g rt=%g T=%d)" % (tag, kk, v, want, worst, j, caps[j], vt, rt, T))
+            return
+    # linear relaxation at its own exact boundary (non-negative schedule)
+    if all(x >= 0 for rowx in M for x in rowx):
+        lw = min(cap - sum(abs(F(rw[k])) * M[k][t] for k in range(N)) for (rw, lim), cap in zip(cons, caps) for t in range(T))
+        lres = {"network": bool(nw.is_feasible(A, True)), "interface": bool(iface.is_feasible(d, True)),
+                "algorithm": bool(sut.algo_utils.infrastructure_constraints_feasible(A, infra, True, vt, rt))}
+        out.probe("exact_linear_probe")
+        for kk, v in lres.items():
+            if v != (lw >= 0):
+                out.add("C06/%s_linear_at_exact_boundary" % kk, "%s: linear %s check says %s, exact |c|-sum margin %s" % (tag, kk, v, lw))
+                return
 
 
 def cons_of(sc):
@@ -37,10 +118,9 @@ def cons_of(sc):
     return [([float(c["coeffs"].get(s, 0)) for s in ids], float(c["limit"])) for c in sc["network"]["constraints"]]
 
 
-def probe_once(out, sc, nw, iface, r, tag):
+def probe_once(out, sc, nw, iface, r, tag, cons):
     ids = [s["id"] for s in sc["network"]["stations"]]
     phases = [s["phase"] for s in sc["network"]["stations"]]
-    cons = cons_of(sc)
     N = len(ids)
     T = r.choice([1, 1, 2, 3, 4])
     mode = r.random()
@@ -172,7 +252,12 @@ def check(sc):
                 return
             state["n"] += 1
             r = sub(sc["seed"], "probe", rec["t"], state["n"])
-            probe_once(box["out"], sc, ctx.sim.network, iface, r, "t=%d" % rec["t"])
+            cons_t = cons_at(sc, rec["t"])
+            if any(rc["t"] <= rec["t"] for rc in sc.get("reconfig", ())):
+                box["out"].probe("probe_after_reconfig")
+            probe_once(box["out"], sc, ctx.sim.network, iface, r, "t=%d" % rec["t"], cons_t)
+            if sc.get("exact") and cons_t and not box["out"].viol:
+                probe_exact(box["out"], sc, ctx.sim.network, iface, sub(sc["seed"], "exact", rec["t"], state["n"]), "t=%d" % rec["t"], cons_t)
         ctx.post_hooks.append(post)
 
     # the Outcome must exist before the run (probes happen inside it)
@@ -204,9 +289,13 @@ def check(sc):
     phases = [s["phase"] for s in sc["network"]["stations"]]
     vt, rt = sc["network"]["violation_tolerance"], sc["network"]["relative_tolerance"]
     nw = tr.sim.network
+    final_cons = cons_at(sc, 10 ** 9)
     for p in tr.periods[:12]:
         if not cons or p["pilots"] is None:
             break
+        if cons_at(sc, p["t"]) != final_cons:
+            continue          # the network object at hand is the one after the last reconfiguration
+        cons = final_cons
         col = [[x] for x in p["pilots"]]
         m, _ = phasor.margins(cons, phases, col, vt, rt)
         if abs(m) < 1e-9 * max(1.0, max(l for _, l in cons)):
